@@ -36,6 +36,10 @@ def closed_length(pts):
 def polygon_case(rng_seed, n, kind, orient, shift, tx, ty, sc):
     rng = np.random.default_rng(rng_seed)
     pts = gen.random_polygon(rng, n, kind)
+    if sc < 1e-3:
+        # small length units: the offset shrinks with the unit (an offset of 100 on a polygon of size 1e-7 leaves no significant
+        # digits for the shoelace sum — float cancellation, not a property of the code)
+        tx, ty = tx * sc * 1e3, ty * sc * 1e3
     pts = [(sc * x + tx, sc * y + ty) for x, y in pts]
     if orient < 0:
         pts = pts[::-1]
@@ -102,10 +106,11 @@ def oracle(ck, pts, obs, case):
             ck.fail("area, sign, perimeter and navigation follow the stored cycle (cycle " + label + ")",
                     f"same cell object: sign {got['sign']} next[:3] {got['next'][:3]}; fresh cell with that cycle: sign {fresh['sign']} next[:3] {fresh['next'][:3]}", case)
             break
-    dx, dy = 3.25, -7.5
+    ext = max(max(p[0] for p in pts) - min(p[0] for p in pts), max(p[1] for p in pts) - min(p[1] for p in pts))
+    dx, dy = 3.25 * ext, -7.5 * ext       # in the polygon's own length unit (cancellation otherwise)
     tr = observe([(x + dx, y + dy) for x, y in pts])
     big = max(scale2, (abs(dx) + abs(dy)) ** 2 * n)
-    if abs(tr["area"] - obs["area"]) > 1e-8 * big or abs(tr["perimeter"] - obs["perimeter"]) > REL * (per + 20) * n:
+    if abs(tr["area"] - obs["area"]) > 1e-8 * big or abs(tr["perimeter"] - obs["perimeter"]) > REL * (per + abs(dx) + abs(dy)) * n * 2:
         ck.fail("translation invariance", f"area {tr['area']} vs {obs['area']}", case)
     lam = 2.5
     sc = observe([(lam * x, lam * y) for x, y in pts])
@@ -251,7 +256,7 @@ def run(ck):
                           "kind": "convex" if i % 4 == 0 else "star", "orient": 1 if ck.rng.random() < 0.5 else -1,
                           "shift": int(ck.rng.integers(0, n)), "tx": float(np.round(ck.rng.normal() * 10.0 ** int(ck.rng.integers(-1, 3)), 3)),
                           "ty": float(np.round(ck.rng.normal() * 10.0 ** int(ck.rng.integers(-1, 3)), 3)),
-                          "sc": float(10.0 ** int(ck.rng.integers(-3, 4)))})
+                          "sc": float(10.0 ** int(ck.rng.integers(-7, 4)))})
         for i in range(ntis):
             cases.append({"type": "tissue", "seed": int(ck.rng.integers(1 << 30)), "sites": int(ck.rng.integers(12, 45)),
                           "kind": ["random", "jitter", "hex"][i % 3], "k": int(ck.rng.integers(0, 6)),
